@@ -131,7 +131,28 @@ class _FakeModule:
         return getattr(_dt, item)
 
 
-_fmixins.datetime = _FakeModule()
+_fake_dt_module = _FakeModule()
+_fmixins.datetime = _fake_dt_module
+
+
+def patch_clock_everywhere():
+    """Every xsdata module that holds the datetime module or class gets the simulated one; time.time() is fixed."""
+    import time as _time
+
+    fixed = _FakeDateTime.fromisoformat(_T).timestamp()
+    _time.time = lambda: fixed
+    _time.time_ns = lambda: int(fixed * 1e9)
+    _time.localtime = lambda *a: _time.gmtime(fixed)
+    _time.strftime_orig = _time.strftime
+    for name, mod in list(sys.modules.items()):
+        if mod is None or not name.startswith("xsdata"):
+            continue
+        for attr, val in list(vars(mod).items()):
+            if val is _dt:
+                setattr(mod, attr, _fake_dt_module)
+            elif val is _dt.datetime:
+                setattr(mod, attr, _FakeDateTime)
+
 
 # ---------------------------------------------------------------- intermediate-order probes
 PROBES = {}
@@ -190,7 +211,7 @@ def apply_params(cfg, params):
     from xsdata.models import config as C
     from xsdata.utils import objects
 
-    cfg.output.update(**{k.replace("__", "."): _coerce(cfg, k, v) for k, v in params.items() if k != "adv"})
+    cfg.output.update(**{k.replace("__", "."): _coerce(cfg, k, v) for k, v in params.items() if k not in ("adv", "create")})
     adv = params.get("adv") or {}
     for key, value in adv.items():
         if key == "substitutions":
@@ -219,7 +240,7 @@ def flags_for(params):
     by_dest = {p.name: p for p in cmd.params if hasattr(p, "on")}
     argv = []
     for key in sorted(params):
-        if key == "adv":
+        if key in ("adv", "create"):
             continue
         value = params[key]
         opt = by_dest[key]
@@ -233,7 +254,7 @@ def flags_for(params):
 
 
 def write_config(path, params):
-    cfg = GeneratorConfig.create() if SPEC.get("config_create") else GeneratorConfig()
+    cfg = GeneratorConfig.create() if params.get("create") else GeneratorConfig()
     apply_params(cfg, params)
     with open(path, "w") as fp:
         GeneratorConfig.write(fp, cfg)
@@ -254,7 +275,7 @@ def generate(source, recursive, params, route, cache, workdir):
     exc = None
     try:
         if route == "api":
-            cfg = GeneratorConfig()
+            cfg = GeneratorConfig.create() if params.get("create") else GeneratorConfig()
             apply_params(cfg, params)
             ResourceTransformer(config=cfg).process(resolve(source, recursive), cache=cache)
         elif route == "api_file":
@@ -272,16 +293,27 @@ def generate(source, recursive, params, route, cache, workdir):
             if cache:
                 argv.append("--cache")
             cfgfile = os.path.join(workdir, "cfg-cli.xml")
-            if route == "cli_flags":
+            if route == "cli_flags" and params.get("create"):
+                # `xsdata init-config` writes the stock configuration, the options travel as flags
+                out, err = sys.stdout, sys.stderr
+                sys.stdout = sys.stderr = io.StringIO()
+                try:
+                    cli.cli.main(["init-config", cfgfile], standalone_mode=False)
+                finally:
+                    sys.stdout, sys.stderr = out, err
+                argv += ["-c", cfgfile] + flags_for(params)
+            elif route == "cli_flags":
                 argv += ["-c", os.path.join(workdir, "does-not-exist.xml")] + flags_for(params)
             elif route == "cli_config":
                 write_config(cfgfile, params)
                 argv += ["-c", cfgfile]
             elif route == "cli_mixed":
-                keys = sorted(k for k in params if k != "adv")
+                keys = sorted(k for k in params if k not in ("adv", "create"))
                 in_file = {k: params[k] for k in keys[::2]}
                 if params.get("adv"):
                     in_file["adv"] = params["adv"]
+                if params.get("create"):
+                    in_file["create"] = True
                 on_cli = {k: params[k] for k in keys[1::2]}
                 write_config(cfgfile, in_file)
                 argv += ["-c", cfgfile] + flags_for(on_cli)
@@ -315,6 +347,11 @@ def generate(source, recursive, params, route, cache, workdir):
 
 
 def main():
+    try:
+        import xsdata.cli  # noqa: F401 - load everything before patching the clock into the modules
+    except Exception:
+        pass
+    patch_clock_everywhere()
     work = SPEC["workdir"]
     os.environ["TMPDIR"] = os.path.join(work, "tmp")
     os.makedirs(os.environ["TMPDIR"], exist_ok=True)
